@@ -157,6 +157,27 @@ def run_one(s):
                 r6 = watched(lambda: (d3.set_volume(5.0), d3(**{n: float(v) for n, v in bind.items()}).volume(U.mk_params(rest, rrows)))[1])
                 pe["uservol_pe"] = fxv(r6[1], VS) if r6[0] == "ok" else []
                 pe["uservol_pe_exc"] = "" if r6[0] == "ok" else (r6[1] if len(r6) > 1 else "hang")
+            # PlotSampler (plots and animations): it binds the other variables itself, plot_domain(**values), and samples the
+            # evaluated domain and its boundary; only when nothing stays free, not for boundaries / products (no grids there)
+            pe["plot"], pe["plot_exc"], pe["plot_cols_ok"] = [], "none", True
+            if not rest and not any(('"k": "%s"' % kk) in __import__("json").dumps(e) for kk in ("bd", "bdl", "bdr", "prod", "point")):
+                def plot():
+                    ps = tp.samplers.PlotSampler(plot_domain=dom, n_points=30,
+                                                 data_for_other_variables={n: float(v) for n, v in bind.items()})
+                    first = ps.sample_points()
+                    return first, ps.sample_points(), len(ps)
+                r7 = watched(plot, 8)
+                if r7[0] != "ok":
+                    pe["plot_exc"] = r7[1] if len(r7) > 1 else "hang"
+                else:
+                    pp, again_, ln = r7[1]
+                    pe["plot_exc"] = ""
+                    vs = U.space_vars(e)
+                    co = pp.coordinates
+                    pe["plot_cols_ok"] = (all(n in co and bool((co[n] == float(v)).all()) for n, v in bind.items())
+                                          and len(pp) == ln and len(again_) == ln and set(co) == set(vs) | set(bind))
+                    for i in range(len(pp)):
+                        pe["plot"].append(U.q_of({v: [float(x) for x in co[v][i]] for v in vs}, dict(bind)))
             # the ORIGINAL domain evaluated at bound values + remaining rows: must agree with D2
             full = {}
             attr(dom, names, [dict(r_, **bind) for r_ in rows], full)
